@@ -384,3 +384,23 @@ package nfa
 //@   loop 1: exit ghost w = len(m.literal) + ite(m.hasNext, 1, 0)
 //@   loop 2: exit ghost w = count
 //@   loop 2: decreases rangelen - rangeindex
+
+// ---- C19: composite searchers (concatenated class repetitions): a part is a GREEDY repetition of an all-ASCII class,
+// and its table is exactly the class (the matchers decide membership byte by byte and extend greedily) ----
+//@ spec func partTable(t [256]bool, c *syntax.Regexp) bool = forall b :: 0 <= b && b <= 255 ==> (t[b] <==> (exists j :: 0 <= j && j + 1 < len(c.Rune) && j % 2 == 0 && c.Rune[j] <= b && b <= c.Rune[j+1]))
+//@ spec func partClass(re *syntax.Regexp) *syntax.Regexp = ite(re.Op == 4, re, re.Sub[0])
+//@ func extractSinglePart
+//@   props C19
+//@   opt elems_nonnil=regexp/syntax.Regexp
+//@   assume re != nil ==> (forall k :: 0 <= k && k < len(re.Rune) ==> 0 <= re.Rune[k]) && (len(re.Sub) >= 1 ==> (forall k :: 0 <= k && k < len(re.Sub[0].Rune) ==> 0 <= re.Sub[0].Rune[k]) && len(re.Sub[0].Rune) % 2 == 0) && len(re.Rune) % 2 == 0
+//@   ensures result != nil ==> re != nil && fresh(result) && (re.Flags & 32) == 0
+//@   ensures result != nil ==> (re.Op == 4 || ((re.Op == 14 || re.Op == 15 || re.Op == 16 || re.Op == 17) && len(re.Sub) == 1 && re.Sub[0].Op == 4))
+//@   ensures result != nil ==> (forall j :: 0 <= j && j < len(partClass(re).Rune) ==> partClass(re).Rune[j] <= 127)
+//@   ensures result != nil ==> partTable(result.membership, partClass(re))
+//@   ensures result != nil ==> result.minMatch == ite(re.Op == 15 || re.Op == 4, 1, ite(re.Op == 17, re.Min, 0)) && result.maxMatch == ite(re.Op == 4 || re.Op == 16, 1, ite(re.Op == 17, re.Max, 0))
+//@   loop 1: invariant 0 <= i && i % 2 == 0 && i <= len(runes) + 1 && sameslice(runes, charClass.Rune) && charClass != nil && charClass.Op == 4 && len(runes) % 2 == 0
+//@   loop 1: invariant forall j :: 0 <= j && j < i && j < len(runes) ==> runes[j] <= 127
+//@   loop 1: invariant forall b :: 0 <= b && b <= 255 ==> (membership[b] <==> (exists j :: 0 <= j && j + 1 < len(runes) && j < i && j % 2 == 0 && runes[j] <= b && b <= runes[j+1]))
+//@   loop 2: invariant lo <= r && (r <= hi + 1 || r == lo) && 0 <= lo && lo <= 127 && hi <= 127 && lo == runes[i] && hi == runes[i+1] && 0 <= i && i % 2 == 0 && i + 1 < len(runes) && sameslice(runes, charClass.Rune) && charClass != nil && charClass.Op == 4 && len(runes) % 2 == 0
+//@   loop 2: invariant forall j :: 0 <= j && j < i ==> runes[j] <= 127
+//@   loop 2: invariant forall b :: 0 <= b && b <= 255 ==> (membership[b] <==> ((exists j :: 0 <= j && j + 1 < len(runes) && j < i && j % 2 == 0 && runes[j] <= b && b <= runes[j+1]) || (lo <= b && b < r)))
